@@ -428,8 +428,131 @@ def rule_funcargs(chk, facts, rule='C08-R7'):
         raise AnalysisBroken('no integer-argument offsets found in function.c')
 
 
+# handler -> C operator applied to (left, right) for int / float operands; the
+# comparison handlers also use it on as_nonz_dynstr_cmp(l, r) vs 0 for strings
+SIGNATURE = {
+    'ShLeftOp': '<<', 'ShRightOp': '>>', 'BinAndOp': '&', 'BinOrOp': '|', 'BinXorOp': '^',
+    'MultOp': '*', 'DivOp': '/', 'ModOp': '%', 'AddOp': '+', 'SubOp': '-',
+    'EqOp': '==', 'GtOp': '>', 'LtOp': '<', 'LeOp': '<=', 'GeOp': '>=', 'UneqOp': '!=',
+}
+FLOAT_OP = {'/': '/f'}
+LOGICAL = ('LogNotOp', 'LogAndOp', 'LogOrOp', 'LogXorOp')
+
+
+def _operand(e, side, fld):
+    """e is pLVal/pRVal->Contents.<fld> ?"""
+    e = nocast(e)
+    return (isinstance(e, tuple) and e and e[0] == 'm' and e[2].endswith('.' + fld) and
+            nocast(e[1])[0] == 'm' and nocast(nocast(e[1])[1]) == ('p', side))
+
+
+def rule_signature(chk, facts):
+    chk.rule('C08-R8', 'each arithmetic, bitwise and comparison operator handler applies exactly the C operator that '
+             'corresponds to its symbol to (left operand, right operand) in that order, for integer and float '
+             'operands; the logical operators use their operands only as truth values (tested against zero) and '
+             'deliver 0 or 1', min_instances=30)
+    u = facts.unit('operator.c')
+    for hn, op in sorted(SIGNATURE.items()):
+        f = u.funcs.get(hn)
+        if f is None:
+            chk.ob('C08-R8', 'operator.c:%s' % hn, False, 'operator.c', 'handler vanished')
+            continue
+        for fld, setter in (('Int', 'as_tempres_set_int'), ('Float', None)):
+            want = op if fld == 'Int' else FLOAT_OP.get(op, op)
+            found_ok, wrong = False, []
+            for b, i, ln, n in f.nodes():
+                if n[0] != 'b' or n[1] in ASSIGN_OPS or n[1] in ('&&', '||', ','):
+                    continue
+                l_, r_ = n[2], n[3]
+                if _operand(l_, 'pLVal', fld) and _operand(r_, 'pRVal', fld):
+                    if n[1] == want:
+                        found_ok = True
+                    else:
+                        wrong.append('%s at line %d' % (n[1], ln))
+                elif _operand(l_, 'pRVal', fld) and _operand(r_, 'pLVal', fld):
+                    if n[1] in ('+', '*', '&', '|', '^', '==', '!=', '/f', '*'):
+                        if n[1] == want and n[1] not in ('/f',):
+                            found_ok = True
+                            continue
+                    wrong.append('operands swapped (%s) at line %d' % (n[1], ln))
+            uses_fld = any(_operand(m, 'pLVal', fld) or _operand(m, 'pRVal', fld) for b, i, ln, m in f.nodes() if m[0] == 'm')
+            if not uses_fld:
+                continue
+            chk.ob('C08-R8', 'operator.c:%s:%s' % (hn, fld.lower()), found_ok and not wrong, f.loc(),
+                   'left %s right' % want if found_ok and not wrong else
+                   '%s combines its %s operands with %s instead of "left %s right"' % (hn, fld.lower(), ', '.join(wrong) or 'no direct operator', want))
+        # string comparisons: as_nonz_dynstr_cmp(&l, &r) <op> 0
+        if op in ('==', '>', '<', '<=', '>=', '!='):
+            ok = False
+            seen_cmp = False
+            for b, i, ln, n in f.nodes():
+                if n[0] == 'b' and n[1] in ('==', '>', '<', '<=', '>=', '!=') and callee_name(nocast(n[2])) == 'as_nonz_dynstr_cmp':
+                    seen_cmp = True
+                    c = nocast(n[2])
+                    a0, a1 = strip(c[2][0]), strip(c[2][1])
+                    order = mentions(a0, lambda m: m == ['p', 'pLVal'] or m == ('p', 'pLVal')) and \
+                        mentions(a1, lambda m: m == ['p', 'pRVal'] or m == ('p', 'pRVal'))
+                    ok = n[1] == op and const_val(n[3]) == 0 and order
+            if seen_cmp:
+                chk.ob('C08-R8', 'operator.c:%s:string' % hn, ok, f.loc(), 'cmp(left, right) %s 0' % op if ok else
+                       '%s compares strings with a different relation or operand order' % hn)
+    for hn in LOGICAL:
+        f = u.funcs.get(hn)
+        if f is None:
+            chk.ob('C08-R8', 'operator.c:%s' % hn, False, 'operator.c', 'handler vanished')
+            continue
+        bad = []
+
+        def truth_ctx(e, parent, role):
+            """operand occurrences must sit directly under !, != 0, == 0, &&, ||, or as a ?: condition"""
+            e2 = e
+            if not isinstance(e2, (list, tuple)) or not e2:
+                return
+            if e2[0] in ('ref', 'cf'):
+                truth_ctx(e2[1], parent, role)
+                return
+            if e2[0] == 'm' and (_operand(e2, 'pLVal', 'Int') or _operand(e2, 'pRVal', 'Int')):
+                okc = False
+                if parent is not None:
+                    pk = parent[0]
+                    if pk == 'u' and parent[1] == '!':
+                        okc = True
+                    elif pk == 'b' and parent[1] in ('&&', '||'):
+                        okc = True
+                    elif pk == 'b' and parent[1] in ('!=', '==') and (const_val(parent[2]) == 0 or const_val(parent[3]) == 0):
+                        okc = True
+                    elif pk == '?' and role == 'cond':
+                        okc = True
+                if not okc:
+                    bad.append(show(parent) if parent is not None else show(e2))
+                return
+            if e2[0] == 'call':
+                for a in e2[2]:
+                    truth_ctx(a, e2, 'arg')
+                return
+            if e2[0] == '?':
+                truth_ctx(e2[1], e2, 'cond')
+                truth_ctx(e2[2], e2, 'val')
+                truth_ctx(e2[3], e2, 'val')
+                return
+            for x in e2[1:]:
+                if isinstance(x, (list, tuple)):
+                    truth_ctx(x, e2, 'operand')
+        for b, i, ln, n in f.calls('as_tempres_set_int'):
+            truth_ctx(n[2][1], None, None)
+            v = nocast(n[2][1])
+            if v[0] == '?':
+                if {const_val(v[2]), const_val(v[3])} != {0, 1}:
+                    bad.append('result %s is not 0/1' % show(v))
+        chk.ob('C08-R8', 'operator.c:%s:truth-values' % hn, not bad, f.loc(),
+               'operands used as truth values only' if not bad else
+               '%s uses an operand arithmetically (%s): two different non-zero operands are both TRUE but are not '
+               'treated alike' % (hn, '; '.join(bad)[:160]))
+
+
 def run(chk, facts, info):
     rule_operators(chk, facts)
+    rule_signature(chk, facts)
     rule_functions(chk, facts)
     rule_domains(chk, facts)
     rule_division(chk, facts)
